@@ -671,7 +671,7 @@ func init() {
 	modes["C19child"] = ModeSpec{Cases: func(string) []Case { return nil }}
 	modes["C19"] = ModeSpec{
 		Cases: func(tier string) []Case {
-			comps := []string{"snappy", "none-nohash", "snappy-nohash"}
+			comps := []string{"snappy", "zstd", "none-nohash", "snappy-nohash", "zstd-nohash"}
 			fams := map[string]int{"bytes": 8, "windows": 8, "resize": 4, "framing": 1}
 			if tier == "thorough" {
 				comps = []string{"none", "snappy", "zstd", "none-nohash", "snappy-nohash", "zstd-nohash"}
